@@ -15,7 +15,19 @@ from pyvc.sym import (I, B, A, A2, iv, add, sub, lit, fresh, fresh_seq, Seq, Tup
 Z3_TIMEOUT_MS = int(os.environ.get("PYVC_Z3_TIMEOUT_MS", "20000"))
 CVC5_TIMEOUT_S = int(os.environ.get("PYVC_CVC5_TIMEOUT_S", "40"))
 FEAS_TIMEOUT_MS = 1500
-RELEVANCY0_FIRST = os.environ.get("PYVC_RELEVANCY0_FIRST", "1") == "1"
+RELEVANCY0_FIRST = os.environ.get("PYVC_RELEVANCY0_FIRST", "0") == "1"
+
+
+def _load_hints():
+    p_ = os.path.join(os.path.dirname(os.path.abspath(__file__)), "attempt_hints.json")
+    try:
+        import json
+        return json.load(open(p_))
+    except Exception:
+        return {}
+
+
+HINTS = _load_hints()
 
 
 class Unsupported(Exception):
@@ -53,7 +65,8 @@ class Result:
         self.name, self.status, self.backend, self.seconds, self.line, self.detail = name, status, backend, seconds, line, detail
 
     def as_dict(self):
-        return dict(name=self.name, status=self.status, backend=self.backend, seconds=round(self.seconds, 3), line=self.line, detail=self.detail)
+        return dict(name=self.name, status=self.status, backend=self.backend, seconds=round(self.seconds, 3), line=self.line, detail=self.detail,
+                    attempt=getattr(self, "attempt", None))
 
 
 def make_solver(timeout_ms):
@@ -106,7 +119,7 @@ class Exec:
         self.trusted_used = set()
         self.quiet = 0
         self.tag = ("[" + ",".join(f"{k}={v}" for k, v in self.split.items()) + "]") if self.split else ""
-        self.z3_timeout_ms, self.cvc5_timeout_s, self.retries = Z3_TIMEOUT_MS, CVC5_TIMEOUT_S, 2
+        self.z3_timeout_ms, self.cvc5_timeout_s, self.retries = Z3_TIMEOUT_MS, CVC5_TIMEOUT_S, 4
         self.failed_names = set()
         self.extra_unfold = {}
         self.ghost_names = set()
@@ -156,20 +169,29 @@ class Exec:
             self.z3_timeout_ms, self.cvc5_timeout_s, self.retries = min(self.z3_timeout_ms, 6000), 0, 1
         # E-matching is order-sensitive: an obligation counts as discharged when ANY attempt answers unsat (sound), so a
         # verdict does not flip with the scheduling of fresh names; a second and third seed are tried before cvc5.
-        for attempt in range(1 + self.retries):
+        order = list(range(1 + self.retries))
+        hint = HINTS.get(full)
+        if hint in order and hint != 0:          # start with the configuration that discharged this obligation last time (pure speed-up)
+            order.remove(hint)
+            order.insert(0, hint)
+        for attempt in order:
             s = make_solver(self.z3_timeout_ms if attempt or not self.retries else min(self.z3_timeout_ms, 5000))
             if attempt == (0 if RELEVANCY0_FIRST else 1):
                 s.set("smt.relevancy", 0)        # E-matching on every ground term, not only the 'relevant' ones
             elif attempt:
                 s.set("random_seed", attempt)
                 s.set("smt.random_seed", attempt)
-            s.add(*(asserts if attempt != 2 else list(reversed(asserts))))
+                if attempt >= 3:
+                    s.set("smt.relevancy", 0 if attempt == 3 else 2)
+                    s.set("timeout", 3 * self.z3_timeout_ms)          # last resorts: long budget (only reached when everything else failed)
+            s.add(*(asserts if attempt not in (2, 4) else list(reversed(asserts))))
             r = s.check()
             if r != z3.unknown:
                 break
         dt = time.time() - t
         if r == z3.unsat:
             self.results.append(Result(full, "discharged", "z3", dt, line))
+            self.results[-1].attempt = attempt
             return
         detail = ""
         if r == z3.sat:
